@@ -723,3 +723,15 @@ class RetentionObserver:
 
 def check_C17(sc: dict, out, facts: Facts) -> list[dict]:
     return list(getattr(out, 'retention_violations', []))
+
+
+# ---------------------------------------------------------------- helpers for the enumeration checks
+
+def digest_of_case(case) -> str:
+    from .tasklib import digest_of
+    return digest_of(case)
+
+
+def observe_is_cached(sc: dict, storage_dir: str, node: int) -> bool:
+    from .execute import observe_cache
+    return observe_cache(sc, storage_dir, [node]).get(node) is True
